@@ -85,15 +85,19 @@ def to_py(x):
         raise V.Unsupported(f"validation result did not evaluate to a number: {s}")
     if x is None:
         return None
+    if isinstance(x, str):
+        return x
     raise V.Unsupported(f"validation result of type {type(x).__name__}")
 
 
-def run_concrete(repo, qual, args, kwargs=None):
+def run_concrete(repo, qual, args, kwargs=None, structured=False):
     mod, cname, node = repo.lookup(qual)
     q = f"{mod.dotted}.{cname + '.' if cname else ''}{node.name}"
     V.AXIOMS.clear()
     V.APPS.clear()
     cx = Ctx(repo, check_paths=False)
+    if structured:
+        cx.ghost["structured_fstrings"] = True
     interp = Interp(cx)
     return interp.run_function(PyFunc(q, mod, cname, node), args, kwargs or {})
 
@@ -151,6 +155,23 @@ def cases(seed, n):
         C = sorted(rnd(rng, -1, 0) for _ in range(N))
         H = [[rnd(rng, 5, 500) for _ in range(im)] for _ in range(jm)]
         out.append(("sdepth", "ladim.ROMS.sdepth", dict(H=H, Hc=rnd(rng, 0, 5), C=C, stagger=rng.choice(["rho", "w"]) if N > 1 else "rho", Vtransform=rng.choice([1, 2]))))
+        # methods of the ROMS Grid on an object carrying the arrays (nearest-cell lookups: round-half-even, array indexing)
+        i0, j0 = rng.randint(0, 3), rng.randint(0, 3)
+        gim, gjm = rng.randint(4, 7), rng.randint(4, 6)
+        garr = lambda lo, hi: [[rnd(rng, lo, hi) for _ in range(gim)] for _ in range(gjm)]  # noqa: E731
+        gattrs = dict(i0=i0, j0=j0, imax=gim, jmax=gjm, xmin=float(i0), xmax=float(i0 + gim - 1), ymin=float(j0), ymax=float(j0 + gjm - 1),
+                      H=garr(5, 300), dx=garr(400, 1200), dy=garr(400, 1200), M=[[float(rng.choice([0, 1, 1])) for _ in range(gim)] for _ in range(gjm)],
+                      lon=garr(0, 10), lat=garr(55, 65))
+        gn = rng.randint(1, 5)
+        GX = [rnd(rng, i0 + 0.6, i0 + gim - 1.6) for _ in range(gn)]
+        GY = [rnd(rng, j0 + 0.6, j0 + gjm - 1.6) for _ in range(gn)]
+        if gn and k % 2 == 0:  # ties: exactly half-integer coordinates
+            GX[0] = float(i0 + rng.randint(1, gim - 2)) + 0.5
+            GY[0] = float(j0 + rng.randint(1, gjm - 2)) - 0.5
+        for meth in ("metric", "depth", "atsea", "onland", "ingrid", "xy2ll"):
+            out.append((f"Grid.{meth}", f"ladim.ROMS.Grid.{meth}", dict(X=GX, Y=GY), dict(cls="ladim.ROMS.Grid", attrs=gattrs)))
+        out.append(("duration2iso", "ladim.timekeeper.duration2iso", dict(duration=dict(timedelta64=rng.choice([0, 59, 60, 3600, 86400, 90061, rng.randint(0, 10**7)])))))
+        out.append(("normalize_period", "ladim.timekeeper.normalize_period", dict(per=rng.choice([rng.randint(1, 10**5), [rng.randint(1, 500), rng.choice(["s", "m", "h"])]]))))
     return out
 
 
@@ -160,7 +181,13 @@ ARRAY_KINDS = dict(K="int")
 def build_args(pyargs):
     a = {}
     for k, v in pyargs.items():
-        if isinstance(v, list):
+        if isinstance(v, dict) and "timedelta64" in v:
+            from contracts.timefmt import Duration
+
+            a[k] = Duration(int(v["timedelta64"]))
+        elif isinstance(v, list) and v and isinstance(v[-1], str):
+            a[k] = list(v)  # [value, unit] period spelling
+        elif isinstance(v, list):
             a[k] = carr(v, ARRAY_KINDS.get(k, "real"))
         elif isinstance(v, float):
             a[k] = Fraction(repr(v))
@@ -174,12 +201,24 @@ def run_validation(seed=0, n=8):
     repo = Repo()
     items = []
     skipped = []
-    for name, qual, pyargs in cases(seed, n):
+    for case in cases(seed, n):
+        name, qual, pyargs = case[:3]
+        selfspec = case[3] if len(case) > 3 else None
         try:
             ia = build_args(pyargs)
-            res = run_concrete(repo, qual, [], ia)
+            pos = []
+            if selfspec:
+                attrs = {k: (carr(v, "real") if isinstance(v, list) else (Fraction(repr(v)) if isinstance(v, float) else v)) for k, v in selfspec["attrs"].items()}
+                pos = [Obj(selfspec["cls"], **attrs)]
+                cx_struct = True
+            if qual.endswith("duration2iso"):
+                V.AXIOMS.clear()
+            res = run_concrete(repo, qual, pos, ia, structured=qual.endswith("duration2iso"))
             post = {k: to_py(v) for k, v in ia.items() if isinstance(v, Arr)}
-            items.append(dict(name=name, qual=qual, args=pyargs, result=to_py(res), args_after=post))
+            it = dict(name=name, qual=qual, args=pyargs, result=to_py(res), args_after=post)
+            if selfspec:
+                it["self"] = selfspec
+            items.append(it)
         except V.Unsupported as e:
             skipped.append(dict(name=name, why=str(e)))
         except V.PyRaise as e:
